@@ -20,6 +20,10 @@ type bcase struct {
 	uni    map[string]bool
 }
 
+// size is the number of source lines of the case (the compiler's cost grows faster than
+// linearly with the size of a program, so packs are bounded by lines, not by cases).
+func (k *bcase) size() int { return strings.Count(k.decls, "\n") + strings.Count(k.body, "\n") }
+
 // source renders the case as a program of its own.
 func (k *bcase) source() string {
 	return packSource([]*bcase{k}, nil)
@@ -362,8 +366,222 @@ func kindsOf(tgs []target, baseStep string) (order []string, by map[string][]tar
 	return
 }
 
-// casesFor generates every case of a non-result type.
-func casesFor(t *ty, full bool) []*bcase {
+// nonWhole filters out whole-component targets.
+func nonWhole(tgs []target) []target {
+	var out []target
+	for _, tg := range tgs {
+		if tg.what != "whole" {
+			out = append(out, tg)
+		}
+	}
+	return out
+}
+
+// leanCases generates the compact phase set of a non-result type: every phase of the property
+// once, all store kinds of a type together (kind "mixed").
+func leanCases(t *ty) []*bcase {
+	var out []*bcase
+	tk := t.key()
+	id := func(phase, skind string) string { return fmt.Sprintf("C18/beh/%%s/%s/%s/%s", phase, skind, tk) }
+	tgs := targets(t, false)
+	leafTgs := nonWhole(tgs)
+
+	// storeall: the literal read back, then every leaf and optional stored in turn
+	// (cumulative), everything and the guards printed after each
+	{
+		g := newGen(t)
+		v := g.prologue()
+		g.printAll("v", "v", v, "init")
+		g.guards("init")
+		s := mkSent(t)
+		for _, tg := range leafTgs {
+			g.store("v", v, s, tg)
+			tag := "after v" + tg.path + "=" + tg.what
+			g.printAll("v", "v", v, tag)
+			g.guards(tag)
+		}
+		out = append(out, g.finish(id("storeall", "mixed"), "storeall", "mixed"))
+	}
+	// copy-mut: copy, print both, mutate every component of the copy, print both
+	{
+		g := newGen(t)
+		v := g.prologue()
+		g.stmt("let w: %s = v;", g.src(t))
+		g.printAll("v", "v", v, "copied")
+		g.printAll("w", "w", v, "copied")
+		w := v.clone()
+		s := mkSent(t)
+		for _, tg := range leafTgs {
+			g.store("w", w, s, tg)
+		}
+		g.printAll("v", "v", v, "copy mutated")
+		g.printAll("w", "w", w, "copy mutated")
+		g.guards("copy mutated")
+		out = append(out, g.finish(id("copy-mut", "mixed"), "copy-mut", "mixed"))
+	}
+	// call-mut: the callee stores into every component of its parameter and returns it
+	{
+		g := newGen(t)
+		v := g.prologue()
+		save := g.b
+		g.b = strings.Builder{}
+		r := v.clone()
+		s := mkSent(t)
+		for _, tg := range leafTgs {
+			g.store("x", r, s, tg)
+		}
+		callee := g.b.String()
+		g.b = save
+		fmt.Fprintf(&g.extra, "fn @@mut(x: %s) -> %s {\n%s    return x;\n}\n", g.src(t), g.src(t), callee)
+		g.stmt("let r: %s = @@mut(v);", g.src(t))
+		g.printAll("v", "v", v, "callee mutated its parameter")
+		g.printAll("r", "r", r, "callee mutated its parameter")
+		g.guards("callee mutated its parameter")
+		out = append(out, g.finish(id("call-mut", "mixed"), "call-mut", "mixed"))
+	}
+	// inarr-mut: [v, v2], then every component of element 1 stored
+	{
+		g := newGen(t)
+		v := g.prologue()
+		v2 := mkAlt(t)
+		g.stmt("let v2: %s = %s;", g.src(t), g.expr(v2))
+		g.stmt("let arr: [2]%s = [v, v2];", g.src(t))
+		a0, a1 := v.clone(), v2.clone()
+		g.printAll("arr[0]", "arr[0]", a0, "in array")
+		g.printAll("arr[1]", "arr[1]", a1, "in array")
+		s := mkSent(t)
+		for _, tg := range leafTgs {
+			g.store("arr[1]", a1, s, tg)
+		}
+		g.printAll("arr[0]", "arr[0]", a0, "array element mutated")
+		g.printAll("arr[1]", "arr[1]", a1, "array element mutated")
+		g.printAll("v", "v", v, "array element mutated")
+		g.guards("array element mutated")
+		out = append(out, g.finish(id("inarr-mut", "mixed"), "inarr-mut", "mixed"))
+	}
+	// instruct-mut: { .P, .V = v, .Q }, then every component of .V stored
+	{
+		g := newGen(t)
+		fmt.Fprintf(&g.extra, "type @@W struct {\n    .P: i8,\n    .V: %s,\n    .Q: i64\n};\n", g.src(t))
+		v := g.prologue()
+		g.stmt("let h: @@W = { .P = 77, .V = v, .Q = 8888888888 };")
+		hv := v.clone()
+		g.println("h.P", "77", "in struct h.P")
+		g.printAll("h.V", "h.V", hv, "in struct")
+		g.println("h.Q", "8888888888", "in struct h.Q")
+		s := mkSent(t)
+		for _, tg := range leafTgs {
+			g.store("h.V", hv, s, tg)
+		}
+		g.println("h.P", "77", "struct field mutated h.P")
+		g.printAll("h.V", "h.V", hv, "struct field mutated")
+		g.println("h.Q", "8888888888", "struct field mutated h.Q")
+		g.printAll("v", "v", v, "struct field mutated")
+		g.guards("struct field mutated")
+		out = append(out, g.finish(id("instruct-mut", "mixed"), "instruct-mut", "mixed"))
+	}
+	// whole: inner structs/arrays replaced as a whole; the value replaced as a whole where it
+	// is an array element and a struct field
+	{
+		g := newGen(t)
+		fmt.Fprintf(&g.extra, "type @@W struct {\n    .P: i8,\n    .V: %s,\n    .Q: i64\n};\n", g.src(t))
+		v := g.prologue()
+		v2 := mkAlt(t)
+		g.stmt("let v2: %s = %s;", g.src(t), g.expr(v2))
+		g.stmt("let arr: [2]%s = [v, v2];", g.src(t))
+		g.stmt("let h: @@W = { .P = 77, .V = v, .Q = 8888888888 };")
+		a0, a1, hv := v.clone(), v2.clone(), v.clone()
+		s := mkSent(t)
+		for _, tg := range tgs {
+			if tg.what != "whole" {
+				continue
+			}
+			g.store("v", v, s, tg)
+			tag := "after v" + tg.path + "=whole"
+			g.printAll("v", "v", v, tag)
+		}
+		g.stmt("arr[0] = v2;")
+		a0 = v2.clone()
+		g.printAll("arr[0]", "arr[0]", a0, "after arr[0]=v2")
+		g.printAll("arr[1]", "arr[1]", a1, "after arr[0]=v2")
+		g.stmt("h.V = v2;")
+		hv = v2.clone()
+		g.println("h.P", "77", "after h.V=v2 h.P")
+		g.printAll("h.V", "h.V", hv, "after h.V=v2")
+		g.println("h.Q", "8888888888", "after h.V=v2 h.Q")
+		g.printAll("v2", "v2", v2, "after h.V=v2")
+		g.guards("whole")
+		out = append(out, g.finish(id("whole", "whole"), "whole", "whole"))
+	}
+	if t.k == kStruct {
+		leafs := leafOnly(tgs)
+		if len(leafs) > 0 {
+			g := newGen(t)
+			g.methods(leafs)
+			v := g.prologue()
+			g.methodCalls(leafs, v, "method")
+			g.guards("method")
+			out = append(out, g.finish(id("method", "none"), "method", "none"))
+		}
+		// inferred: `let v := { ... } as T;` read back, stored into, read through a method
+		{
+			g := newGen(t)
+			g.methods(leafs)
+			v := g.inferredPrologue()
+			g.printAll("v", "v", v, "inferred")
+			g.methodCalls(leafs, v, "inferred")
+			s := mkSent(t)
+			for _, tg := range leafTgs {
+				g.store("v", v, s, tg)
+			}
+			g.printAll("v", "v", v, "inferred, all stored")
+			g.guards("inferred")
+			out = append(out, g.finish(id("inferred", "mixed"), "inferred", "mixed"))
+		}
+	}
+	return out
+}
+
+func leafOnly(tgs []target) []target {
+	var out []target
+	for _, tg := range tgs {
+		if tg.what == "leaf" {
+			out = append(out, tg)
+		}
+	}
+	return out
+}
+
+// methods declares one value-receiver method per leaf, returning that leaf.
+func (g *gen) methods(leafs []target) {
+	for i, tg := range leafs {
+		fmt.Fprintf(&g.extra, "fn (s: %s) m%d() -> %s {\n    return s%s;\n}\n", g.src(g.t), i, tg.t.leaf, tg.path)
+	}
+}
+
+func (g *gen) methodCalls(leafs []target, v *val, tag string) {
+	for i, tg := range leafs {
+		n := g.fresh("m")
+		g.stmt("let %s: %s = v.m%d();", n, tg.t.leaf, i)
+		g.println(n, nav(v, tg.idx).leaf, tag+" v.m"+strconv.Itoa(i)+"() = v"+tg.path)
+	}
+}
+
+func (g *gen) inferredPrologue() *val {
+	if g.t.hasOpt() {
+		g.stmt("let tn: bool = false;")
+	}
+	g.stmt("let g1: i64 = 1111;")
+	v := mkInit(g.t)
+	e := g.expr(v)
+	g.stmt("let v := %s as %s;", e, g.src(g.t))
+	g.stmt("let g2: i64 = 2222;")
+	return v
+}
+
+// fineCases generates the fine-grained set: one case per store target and per store kind, and
+// the phases without any store (so that a defect of one store kind does not hide the others).
+func fineCases(t *ty) []*bcase {
 	var out []*bcase
 	tk := t.key()
 	id := func(phase, skind string, more ...string) string {
@@ -374,8 +592,6 @@ func casesFor(t *ty, full bool) []*bcase {
 		return s
 	}
 	tgs := targets(t, false)
-
-	// init: the literal, read back
 	{
 		g := newGen(t)
 		v := g.prologue()
@@ -383,7 +599,6 @@ func casesFor(t *ty, full bool) []*bcase {
 		g.guards("init")
 		out = append(out, g.finish(id("init", "none"), "init", "none"))
 	}
-	// store: one store into a fresh value, everything printed afterwards
 	for _, tg := range tgs {
 		g := newGen(t)
 		v := g.prologue()
@@ -397,24 +612,7 @@ func casesFor(t *ty, full bool) []*bcase {
 		}
 		out = append(out, g.finish(id("store", tg.kind("var"), p+"="+tg.what), "store", tg.kind("var")))
 	}
-	// storeall: every leaf and optional in turn, cumulative, everything printed after each
-	{
-		g := newGen(t)
-		v := g.prologue()
-		s := mkSent(t)
-		for _, tg := range tgs {
-			if tg.what == "whole" {
-				continue
-			}
-			g.store("v", v, s, tg)
-			tag := "after v" + tg.path + "=" + tg.what
-			g.printAll("v", "v", v, tag)
-			g.guards(tag)
-		}
-		out = append(out, g.finish(id("storeall", "mixed"), "storeall", "mixed"))
-	}
 	korder, kby := kindsOf(tgs, "var")
-	// copy
 	{
 		g := newGen(t)
 		v := g.prologue()
@@ -425,9 +623,6 @@ func casesFor(t *ty, full bool) []*bcase {
 		out = append(out, g.finish(id("copy", "none"), "copy", "none"))
 	}
 	for _, kd := range korder {
-		if strings.HasSuffix(kd, "-whole") && !full {
-			continue
-		}
 		g := newGen(t)
 		v := g.prologue()
 		g.stmt("let w: %s = v;", g.src(t))
@@ -441,7 +636,6 @@ func casesFor(t *ty, full bool) []*bcase {
 		g.guards("copy mutated")
 		out = append(out, g.finish(id("copy-mut", kd), "copy-mut", kd))
 	}
-	// call: identity function
 	{
 		g := newGen(t)
 		fmt.Fprintf(&g.extra, "fn @@id(x: %s) -> %s {\n    return x;\n}\n", g.src(t), g.src(t))
@@ -452,14 +646,12 @@ func casesFor(t *ty, full bool) []*bcase {
 		g.guards("returned")
 		out = append(out, g.finish(id("call", "none"), "call", "none"))
 	}
-	// call-mut: the callee stores into its own parameter and returns it
 	for _, kd := range korder {
 		if strings.HasSuffix(kd, "-whole") {
 			continue
 		}
 		g := newGen(t)
 		v := g.prologue()
-		// the callee body is generated with the same machinery on a scratch generator state
 		save := g.b
 		g.b = strings.Builder{}
 		r := v.clone()
@@ -476,7 +668,6 @@ func casesFor(t *ty, full bool) []*bcase {
 		g.guards("callee mutated its parameter")
 		out = append(out, g.finish(id("call-mut", kd), "call-mut", kd))
 	}
-	// inarr: [v, v2]
 	etgs := targets(t, true)
 	eorder, eby := kindsOf(etgs, "elem")
 	inarr := func(kd string) {
@@ -505,7 +696,6 @@ func casesFor(t *ty, full bool) []*bcase {
 	for _, kd := range eorder {
 		inarr(kd)
 	}
-	// instruct: { .P, .V = v, .Q }
 	forder, fby := kindsOf(etgs, "fld")
 	instruct := func(kd string) {
 		g := newGen(t)
@@ -533,65 +723,22 @@ func casesFor(t *ty, full bool) []*bcase {
 		instruct(kd)
 	}
 	if t.k == kStruct {
-		// method: value receiver reads each leaf
-		var leafs []target
-		for _, tg := range tgs {
-			if tg.what == "leaf" {
-				leafs = append(leafs, tg)
-			}
-		}
-		methods := func(g *gen) {
-			for i, tg := range leafs {
-				fmt.Fprintf(&g.extra, "fn (s: %s) m%d() -> %s {\n    return s%s;\n}\n", g.src(t), i, tg.t.leaf, tg.path)
-			}
-		}
-		calls := func(g *gen, v *val, tag string) {
-			for i, tg := range leafs {
-				n := g.fresh("m")
-				g.stmt("let %s: %s = v.m%d();", n, tg.t.leaf, i)
-				g.println(n, nav(v, tg.idx).leaf, tag+" v.m"+strconv.Itoa(i)+"() = v"+tg.path)
-			}
+		leafs := leafOnly(tgs)
+		{
+			g := newGen(t)
+			v := g.inferredPrologue()
+			g.printAll("v", "v", v, "inferred")
+			g.guards("inferred")
+			out = append(out, g.finish(id("inferred-init", "none"), "inferred-init", "none"))
 		}
 		if len(leafs) > 0 {
 			g := newGen(t)
-			methods(g)
-			v := g.prologue()
-			calls(g, v, "method")
-			g.guards("method")
-			out = append(out, g.finish(id("method", "none"), "method", "none"))
+			g.methods(leafs)
+			v := g.inferredPrologue()
+			g.methodCalls(leafs, v, "inferred-method")
+			g.guards("inferred-method")
+			out = append(out, g.finish(id("inferred-method", "none"), "inferred-method", "none"))
 		}
-		// inferred: `let v := { ... } as T;`
-		inferred := func(phase string, f func(g *gen, v *val)) {
-			g := newGen(t)
-			if phase == "inferred-method" {
-				methods(g)
-			}
-			if t.hasOpt() {
-				g.stmt("let tn: bool = false;")
-			}
-			g.stmt("let g1: i64 = 1111;")
-			v := mkInit(t)
-			e := g.expr(v)
-			g.stmt("let v := %s as %s;", e, g.src(t))
-			g.stmt("let g2: i64 = 2222;")
-			f(g, v)
-			g.guards(phase)
-			out = append(out, g.finish(id(phase, "none"), phase, "none"))
-		}
-		inferred("inferred", func(g *gen, v *val) { g.printAll("v", "v", v, "inferred") })
-		if len(leafs) > 0 {
-			inferred("inferred-method", func(g *gen, v *val) { calls(g, v, "inferred-method") })
-		}
-		inferred("inferred-storeall", func(g *gen, v *val) {
-			s := mkSent(t)
-			for _, tg := range tgs {
-				if tg.what == "whole" {
-					continue
-				}
-				g.store("v", v, s, tg)
-			}
-			g.printAll("v", "v", v, "inferred-storeall")
-		})
 	}
 	return out
 }
